@@ -54,6 +54,10 @@ func (o *out) effects(dir, fn, lean string) {
 				return true
 			}
 			if c16Watch[name] {
+				if name == "os.Stat" && len(x.Args) == 1 {
+					// which path is examined matters (directory before marker, …)
+					name = "os.Stat(" + p.src(x.Args[0]) + ")"
+				}
 				if deferred[x] {
 					name = "defer " + name
 				}
